@@ -148,7 +148,7 @@ def run_real(case, timeout=60.0):
     code = ("import sys, json; sys.path[:0] = [%r, %r]\n"
             "from props.c08 import _run_real_here\n"
             "if __name__ == '__main__':\n"
-            "    print('C08RESULT' + json.dumps(_run_real_here(json.loads(sys.stdin.read()))))\n" % (repo, here))
+            "    print('C08RESULT' + json.dumps(_run_real_here(json.loads(sys.stdin.read()), %r)))\n" % (repo, here, timeout))
     try:
         p = subprocess.run([sys.executable, "-W", "ignore", "-c", code], input=json.dumps(case), capture_output=True, text=True,
                            timeout=timeout + 15, env=env)
@@ -368,7 +368,7 @@ class C08(Property):
     quick_n = 3000
     thorough_n = 40000
     search_n = 1500
-    case_timeout = 120
+    case_timeout = 300
     workers = 8
     rule = ("a case = (n_processes 1..4, maxtasksperchild 0..3, 0-10 items each with 0-3 outputs and optionally an error raised after them, "
             "optional early abandon after k outputs, optional CobaMultiprocessor wrapper, schedule = PRNG seed + role/lineage weights + stickiness "
@@ -575,7 +575,12 @@ class C08(Property):
         mode = case.get("mode", "sched")
         if mode == "dfs":
             return self.evaluate_dfs(case, driver)
-        run = run_real(case) if mode == "real" else run_scheduled(case)
+        if mode == "real":
+            run = run_real(case)
+            if run["outcome"]["kind"] == "hang":        # an overloaded machine is not a hang: once more, generously
+                run = run_real(case, timeout=150.0)
+        else:
+            run = run_scheduled(case)
         return self.verdict(case, run, driver, mode)
 
     def verdict(self, case, run, driver, mode):
@@ -616,6 +621,7 @@ class C08(Property):
         prefix = []
         runs = 0
         complete = False
+        deepest = 0
         agg = None
         skip = case.get("skip", 0)
         base = dict(case, mode="sched", sched={"det": True})
@@ -632,6 +638,7 @@ class C08(Property):
                 out["fails"] = [dict(f, what=f["what"] + " [schedule prefix %s]" % prefix) for f in out["fails"]]
                 agg = out
                 break
+            deepest = max(deepest, len(run["choices"]))
             ch = [c for c in run["choices"]][:depth]
             j = len(ch) - 1
             while j >= 0 and ch[j][0] + 1 >= ch[j][1]:
@@ -640,7 +647,8 @@ class C08(Property):
                 complete = True
                 break
             prefix = [c[0] for c in ch[:j]] + [ch[j][0] + 1]
-        agg["tags"] = [t for t in agg["tags"] if not t.startswith("mode:")] + ["mode:dfs", "dfs:runs:%d" % (runs // 10 * 10)] + (["dfs:complete"] if complete else [])
+        agg["tags"] = [t for t in agg["tags"] if not t.startswith("mode:")] + ["mode:dfs", "dfs:runs:%s" % ("<50" if runs < 50 else "<400" if runs < 400 else "400+")] + (
+            ["dfs:complete" if deepest <= depth and not skip else "dfs:complete-to-depth"] if complete else [])
         agg["nontrivial"] = True
         agg.setdefault("impl", {})["dfs_runs"] = runs
         return agg
